@@ -3,25 +3,78 @@
 import json, os
 
 CHECKS = {
- "C16": dict(level="model_checking", engine="E1-kani", design="DESIGN.md §2 C16",
-   technique="bounded model checking of the real toktrie code with Kani/CBMC (symbolic bit-vectors, symbolic byte-level acceptors over trie tables dumped from the real builder)",
-   text="Kani/CBMC decides, for every input inside the stated bounds (<=3-word bit vectors with symbolic size and contents; every transition-table acceptor with 2-3 states over vocabulary families built by the real TokTrie::from/filter; every u32 token id; every byte string <=3 bytes), that the bit-vector operations equal set operations and that the trie walk (add_bias / has_valid_extensions / token / token_id / token_len) equals a per-token test against the generator's own word list. Unwinding assertions are on; cover witnesses must be satisfied; a must-fail witness harness guards against vacuity.",
-   note="Trusted: Kani's model of Rust/std, CBMC. Not decided: the trie builder executed symbolically (its output tables are checked instead), greedy_tokenize/chop_tokens (out of memory under CBMC), tokenizer adapters (toktrie_hf_tokenizers, toktrie_tiktoken, tokenizer_json.rs), vocabularies beyond the families."),
- "C08": dict(level="translation_validation", engine="E2-export-smt", design="DESIGN.md §3 C08",
-   technique="SMT (z3: linear integers / 60-bit vectors for multipleOf) over the engine's own exported number-lexeme automaton vs an arithmetic oracle on a symbolic decimal literal; models replayed on the real Matcher",
-   text="For each bounds tuple the real schema->regex->automaton pipeline runs natively and the solver decides, for every plain decimal literal within the digit bounds at once, that the automaton accepts it iff its value satisfies the bounds (and multipleOf); schemas rejected at compile time must have no satisfying literal. Every model is replayed on the real engine and judged by an independent exact-arithmetic oracle before it is reported.",
-   note="Trusted: the lexer interpreter runs the exported table faithfully (E2 executes the table, not the interpreter); z3. Outside: literals longer than the digit bounds, exponent notation, negative zero, integer schemas with a fractional spelling (5.0)."),
+ "C02": dict(level="model_checking", engine="E1-kani", design="DESIGN.md §2 C02",
+   technique="bounded model checking (Kani/CBMC) of the real TokTrie::add_bias over trie tables dumped from the real builder, with a symbolic byte-stack acceptor; differential against byte-at-a-time masks on the single-byte vocabulary",
+   text="For every transition-table acceptor with 2-3 states, the real add_bias on a multi-byte vocabulary puts a token in the mask exactly when a loop of real add_bias calls on the single-byte vocabulary allows each of its bytes in turn (duplicates, prefix tokens, tokens ending inside a UTF-8 character included). Decides the trie-layer half of the second sentence of C02 only.",
+   note="NOT decided: that ParserRecognizer is a function of its byte stack (lexeme boundaries inside a token, row reuse) and the first sentence of C02 — they need the Earley interpreter under the solver, which does not fit (see DESIGN §1)."),
+ "C03": dict(level="translation_validation", engine="E2-export-smt", design="DESIGN.md §3 C03",
+   technique="SAT queries (z3) on the engine's exported artefacts: trap-set query per lexer automaton, unproductive-symbol query per compiled grammar; exact for the tables",
+   text="For every lexer automaton materialised by the engine (regex corpus, number ranges, JSON strings with length/pattern/format) the solver shows that no reachable non-dead state set is closed under transitions without containing an accepting state; for every compiled grammar (JSON schemas with unsatisfiable pieces in optional positions, structure schemas, Lark) that no reachable symbol is unproductive. A witness path is replayed on the real Matcher.",
+   note="Compile level only. The run-time half (rows listing scannable lexemes, lexer restriction, NoExtensionBias) needs the parser and is outside. User grammars that are themselves unproductive (empty terminal by construction) are excluded with the independent reference."),
  "C04": dict(level="translation_validation", engine="E2-export-smt", design="DESIGN.md §3 C04",
    technique="SAT/SMT product run (z3) of the engine's exported lexeme automaton and an independent reference DFA over a symbolic byte string, all prefixes at once; models replayed on the real Matcher",
    text="For each regex / Lark terminal expression (fixed corners + VERIF_SEED generator: classes, negated classes, dot, (?s:.), (?i), alternation, bounded/unbounded repetition, &, ~, %regex substring, 2-4 byte UTF-8) the solver decides over every byte string up to N bytes (bytes unconstrained) that acceptance and prefix viability of the engine's automaton equal those of a reference built independently (Thompson + subset construction over UTF-8 bytes, itself cross-checked against python re on every run).",
    note="Trusted: interpreter runs the exported automaton; reference construction (self-checked against python re). Outside: strings longer than N, automata above 3000 states, lazy/stop lexemes, Unicode \\w\\d\\s classes."),
+ "C05": dict(level="translation_validation", engine="E2-export-smt+E1-kani", design="DESIGN.md §3 C05",
+   technique="two-sided CYK encoding in z3 (compiled rule table vs reference CFG on a symbolic terminal word), SAT least-fixed-point query for the nullable flags, Kani for ParamExpr/ParamCond; counterexamples replayed on the real Matcher",
+   text="For generated and hand-written Lark grammars in the confusion-free fragment the compiled rule table (after the real front end, builder, optimize and CGrammar::from_grammar) derives exactly the words of a reference CFG built from the generator's AST, for every terminal word up to N; the nullable flags are shown to be the least fixed point of the rules; ParamRef/ParamExpr/ParamCond evaluation equals docs/parametric.md for every 64-bit value and bit range.",
+   note="Compile level. Earley scan/predict/complete at run time and therefore 'a token is allowed exactly when...' are NOT decided; a counterexample is replayed on the real Matcher, the absence of one says nothing about the interpreter."),
+ "C06": dict(level="translation_validation", engine="E2-export-smt", design="DESIGN.md §3 C06/C07",
+   technique="two-sided CYK encoding in z3: compiled JSON grammar (lexemes expanded into their atom sets) vs reference CFG of valid instances, on a symbolic atom word; models judged by python jsonschema and replayed on the real Matcher",
+   text="For seeded and hand-written schemas of the structural subset the solver decides that no atom word up to N is derived by the compiled grammar but not by the reference (soundness direction); the additional-key lexeme is checked against the declared keys. A model is reported only if python jsonschema rejects the concretised JSON text and the real Matcher accepts it.",
+   note="Structure level: leaves are atoms; formats, pattern, patternProperties, flexible whitespace, numeric leaves (C08), lengths (C09) and the interpreter are outside."),
+ "C07": dict(level="translation_validation", engine="E2-export-smt", design="DESIGN.md §3 C06/C07",
+   technique="same CYK query, completeness direction (reference derives, compiled grammar does not); models judged by python jsonschema and replayed on the real Matcher",
+   text="For the same schema family the solver decides that every canonical compact serialisation (declared keys in schema order, then additional keys) of a valid instance up to N atoms is derived by the compiled grammar; a satisfiable schema of the subset that fails to compile is a finding.",
+   note="Structure level only; 'every vocabulary used to tokenise the instance' and the whitespace options are outside (interpreter)."),
+ "C08": dict(level="translation_validation", engine="E2-export-smt+E1-kani", design="DESIGN.md §3 C08",
+   technique="SMT (z3: linear integers / 60-bit vectors for multipleOf) over the engine's own exported number-lexeme automaton vs an arithmetic oracle on a symbolic decimal literal; models replayed on the real Matcher; Kani for normalize_integer_bounds / keyword selection / lcm",
+   text="For each bounds tuple the real schema->regex->automaton pipeline runs natively and the solver decides, for every plain decimal literal within the digit bounds at once, that the automaton accepts it iff its value satisfies the bounds (and multipleOf); schemas rejected at compile time must have no satisfying literal. Every model is replayed on the real engine and judged by an independent exact-arithmetic oracle before it is reported.",
+   note="Trusted: the lexer interpreter runs the exported table faithfully (E2 executes the table, not the interpreter); z3. Outside: literals longer than the digit bounds, exponent notation, negative zero, integer schemas with a fractional spelling (5.0)."),
+ "C09": dict(level="translation_validation", engine="E2-export-smt", design="DESIGN.md §3 C09",
+   technique="automaton product encoding (regex / terminal / JSON string length) and CYK encoding (rule level, minItems/maxItems, min/maxProperties) in z3 against count oracles; automaton-level models replayed on the real Matcher",
+   text="For (m,n) pairs up to the bound (crossing the n=12 and repeat_exact>8 shape switches), {m,}, *, +, ? at regex, terminal and rule level, nested repetitions, JSON minItems/maxItems, min/maxProperties and minLength/maxLength, the solver decides that exactly the counts m..n are admitted for every count 0..n+3 (all prefixes of one symbolic word).",
+   note="Rule level compares the compiled rule table as a CFG (Earley run outside). String length counts Unicode scalar values, escapes as one, with the documented default escape set."),
+ "C10": dict(level="translation_validation", engine="E2-export-smt", design="DESIGN.md §3 C10",
+   technique="SAT product run (z3): for every (lexer state, slice) with a positive real check_subsume verdict, search a slice-language string that kills the lexeme automaton from that state (symbolic start state and bytes)",
+   text="The exporter builds the lexer as to_cgrammar does (slice regexes as extra lexemes), asks the real subsume_possible/check_subsume for every state of every lexeme automaton, and the solver shows for all positive verdicts at once that no string of the slice language up to the longest token dies from that state. Negative verdicts serve as vacuity twins.",
+   note="Containment half only: the set algebra of TokenizerSlice::apply and bit-for-bit mask equality need a parser state and are outside."),
+ "C13": dict(level="model_checking", engine="E1-kani+E2-export-smt", design="DESIGN.md §2 C13",
+   technique="Kani/CBMC on add_bias with a symbolic start prefix and has_valid_extensions (symbolic acceptor); SAT query on every exported lexer state for the soundness of the next-byte hint forced_byte trusts",
+   text="Left-over forced bytes as mandatory prefix of the next mask: add_bias(r, set, start) equals the per-token test for every acceptor and every 1-2 byte start; has_valid_extensions agrees. E2-13.3: ForcedByte(c) implies every other byte and end-of-input are dead, ForcedEOI implies every byte is dead, for every state of every exported automaton.",
+   note="K13.1 chop_tokens does not fit CBMC (12.9 GB at 400 s) and is not decided; forced_byte's probe, force_bytes, ff_tokens, process_prompt need the parser state and are outside."),
+ "C15": dict(level="translation_validation", engine="E2-export-smt+E1-kani", design="DESIGN.md §3 C15",
+   technique="two-sided CYK encoding in z3 on Grammar::to_string before/after the real Grammar::optimize(), shared symbolic terminal word; Kani for the union-find of expand_shortcuts",
+   text="For hand-written grammars, Lark snippets found in /repo's tests and docs, JSON schemas and seeded random grammars (chains, single/multi users, self reference, captures, max_tokens, nullable rules) the solver decides that before/after grammars derive the same terminal words up to N and that capture/max_tokens symbols survive; uf_find/uf_union/uf_compress_all are checked on every acyclic parent array of 6 symbols.",
+   note="Parametric grammars: rule conditions compared as multisets, language on the skeleton. Models are confirmed by an independent concrete CYK recogniser on the exported grammars."),
+ "C16": dict(level="model_checking", engine="E1-kani", design="DESIGN.md §2 C16",
+   technique="bounded model checking of the real toktrie code with Kani/CBMC (symbolic bit-vectors, symbolic byte-level acceptors over trie tables dumped from the real builder)",
+   text="Kani/CBMC decides, for every input inside the stated bounds (<=3-word bit vectors with symbolic size and contents; every transition-table acceptor with 2-3 states over vocabulary families built by the real TokTrie::from/filter; every u32 token id; every byte string <=3 bytes), that the bit-vector operations equal set operations and that the trie walk (add_bias / has_valid_extensions / token / token_id / token_len) equals a per-token test against the generator's own word list. Unwinding assertions are on; cover witnesses must be satisfied; a must-fail witness harness guards against vacuity.",
+   note="Trusted: Kani's model of Rust/std, CBMC. Not decided: the trie builder executed symbolically (its output tables are checked instead), greedy_tokenize/chop_tokens (out of memory under CBMC), tokenizer adapters (toktrie_hf_tokenizers, toktrie_tiktoken, tokenizer_json.rs), vocabularies beyond the families."),
+ "C17": dict(level="model_checking", engine="E1-kani", design="DESIGN.md §2 C17",
+   technique="Kani/CBMC over a source slice of ffi_par.rs (mask copy statements cut from the current source into a mock environment over the real SimpleVob/StepResult), plus slice-bound and token-range kernels of ffi.rs",
+   text="For vocabulary sizes at the 32-bit boundaries, every mask content, every eos id, destination buffers smaller than / equal to / larger than the mask and the three result kinds: no out-of-bounds read of the mask or write of the destination, destination words equal the mask words then zeros (plus the EOS bit on stop), no bit at or above the vocabulary size.",
+   note="Buffer half only: equality of C and Rust results, pointer lifetimes and rayon scheduling are outside. V and result kind concrete per instance because Kani mis-models write_bytes with a symbolic count."),
+ "C19": dict(level="model_checking", engine="E1-kani+E2-export-smt", design="DESIGN.md §2 C19",
+   technique="Kani/CBMC over the range-negation loop (source slice) and contains_token; SAT run over every exported text-lexeme automaton with a symbolic byte string containing the marker byte 0xFF",
+   text="Negated token ranges are sorted, disjoint, inside the vocabulary and contain a token iff no input range does (<=3 ranges, every u32 vocabulary size); contains_token equals range membership; every text lexeme automaton of the corpus is dead after any string containing 0xFF.",
+   note="Range/marker half: add_numeric_token / flush_and_check_numeric at run time, removal of the bare marker token from masks, marker-aware tokenisation are outside. The sort call inside the slice is cut out (std sort does not terminate under CBMC)."),
+ "C20": dict(level="model_checking", engine="E1-kani", design="DESIGN.md §2 C20",
+   technique="Kani/CBMC panic/overflow/bounds checking of arithmetic and index kernels over all inputs within stated bounds",
+   text="Freedom from panics, arithmetic overflow and out-of-bounds accesses for every input of the listed kernels (Decimal::new/checked_lcm/gcd64, normalize_integer_bounds, min/max selection, ParamRef/ParamExpr/ParamCond, Item packing, valid_utf8_len incl. its functional post-condition, TrieNode packing, token_len).",
+   note="Kernel level ONLY. Whole-program robustness against malformed grammar text / schemas / regexes, resource limits, hangs and sticky failure are not decided by this technique."),
 }
 
 NOT_APPLICABLE = {
+ "C01": "compares three traversals of the Earley/lexer interpreter (speculative trie walk with row reuse, definitive byte application, validation); putting Parser::new (derivre expression sets, hash-consing, Lark front end) under CBMC did not terminate even for the 4-word trie builder and an all-concrete one-rule grammar (DESIGN §1 probes). Its trie-walk mechanism is decided under C16/C02.",
+ "C11": "mask caching is keyed on interpreter state (lexer_state, row_idx) and its soundness is a statement about engine histories; no part of it is a table or a kernel the solver can execute. (A stale-mask-after-rollback defect found by reading is described in DESIGN §5; a solver over the real code cannot reach it.)",
+ "C12": "rollback truncates five parallel vectors inside ParserState/TokenParser; one inductive step of ParserState::rollback from a partially initialised state gave no result in 15 min under Kani, and 'equals an engine that never saw those tokens' needs the interpreter for the observables. Only token_len arithmetic is decided (C16).",
+ "C14": "the quantifier is over thread schedules; Kani rejects concurrent code and CBMC's Rust path has no thread model; a hand-written model of the mutex protocol would not be the real code.",
+ "C18": "stop/EOS/accepting consistency and the error protocol are sequences of interpreter calls; the stop controller drives a derivre automaton through a mutex. Its only solver-sized kernel, valid_utf8_len, is decided under C20.",
 }
 
-PENDING = ["C01","C02","C03","C05","C06","C07","C09","C10","C11","C12","C13","C14","C15","C17","C18","C19","C20"]
-PENDING_REASON = "check not built yet in this session (see DESIGN.md for the plan); listed here so that MANIFEST stays truthful at every commit"
+PENDING = []
+PENDING_REASON = ""
 
 def main():
     checks = []
